@@ -96,6 +96,7 @@ async fn run_lines(lines: &[String], work: &PathBuf, stats: &mut Stats) -> Vec<S
                 Some(w) => {
                     let r = match k {
                         "mut" => w.op_mut(&kv).await,
+                        "cmut" => w.op_cmut(&kv).await,
                         "obs" => w.op_obs(&kv).await,
                         "restart" => w.op_restart(&kv).await,
                         "sync" => w.op_sync(&kv).await,
@@ -103,7 +104,11 @@ async fn run_lines(lines: &[String], work: &PathBuf, stats: &mut Stats) -> Vec<S
                     };
                     stats.inc(&format!("op.{}", k));
                     let cls = r.split(' ').next().unwrap_or("");
-                    if cls.starts_with("err") || cls == "ok" || cls == "none" {
+                    if k == "cmut" {
+                        for v in cls.split(',') {
+                            stats.inc(&format!("res.cmut.{}", v));
+                        }
+                    } else if cls.starts_with("err") || cls == "ok" || cls == "none" {
                         stats.inc(&format!("res.{}.{}", k, cls));
                     }
                     r
